@@ -93,6 +93,8 @@ type JobResult struct {
 	Truncated     bool
 	ExpectedPanic int
 	Observed      [][]string // concrete-mode observations
+	InputKinds      []string // concrete mode: kinds of the inputs consumed
+	ConcreteOutcome string   // concrete mode: pass | check-failed L | assume-failed | panic ... |obs| ...
 }
 
 type pathState struct {
@@ -512,6 +514,7 @@ func (i *interpreter) check(cond value, label string) {
 	if i.concreteMode {
 		if !cond.(bool) {
 			i.res.Violations = append(i.res.Violations, Violation{Harness: i.res.Harness, Params: i.res.Params, Label: label, Kind: "check", Msg: "concrete check failed"})
+			panic(pathEnd{"check-failed " + label})
 		}
 		return
 	}
@@ -623,6 +626,7 @@ func (i *interpreter) runPath(fn *ssa.Function, prefix []decision) {
 		i.sol.Push()
 	}
 	dead := false
+	outcome := "pass"
 	func() {
 		defer func() {
 			r := recover()
@@ -631,6 +635,12 @@ func (i *interpreter) runPath(fn *ssa.Function, prefix []decision) {
 			}
 			switch p := r.(type) {
 			case pathEnd:
+				if i.concreteMode {
+					outcome = p.reason
+					if p.reason == "assume-false" {
+						outcome = "assume-failed"
+					}
+				}
 				switch p.reason {
 				case "dead", "assume-false":
 					dead = true
@@ -639,8 +649,10 @@ func (i *interpreter) runPath(fn *ssa.Function, prefix []decision) {
 					res.Inconclusive = append(res.Inconclusive, "step budget exhausted (unwinding failure) at "+i.curPosString())
 				}
 			case targetPanic:
+				outcome = "panic"
 				i.onPanic("panic: " + toString(p.v))
 			case runtime.Error:
+				outcome = "panic"
 				msg := p.Error()
 				if _, ok := r.(runtimeError); !ok {
 					// A Go runtime error inside the interpreter: either it mirrors
@@ -651,8 +663,10 @@ func (i *interpreter) runPath(fn *ssa.Function, prefix []decision) {
 				}
 				i.onPanic(msg)
 			case string:
+				outcome = "panic"
 				i.onPanic("interp: " + p)
 			default:
+				outcome = "panic"
 				i.onPanic(fmt.Sprintf("interp: %v", r))
 			}
 		}()
@@ -670,6 +684,13 @@ func (i *interpreter) runPath(fn *ssa.Function, prefix []decision) {
 	}
 	if len(ps.observed) > 0 {
 		res.Observed = append(res.Observed, ps.observed)
+	}
+	if i.concreteMode {
+		res.InputKinds = nil
+		for _, in := range ps.inputs {
+			res.InputKinds = append(res.InputKinds, in.Kind)
+		}
+		res.ConcreteOutcome = outcome + " |obs| " + strings.Join(ps.observed, " ;; ")
 	}
 	i.rollback()
 	if !i.concreteMode {
